@@ -1,6 +1,8 @@
 import Cdecao.Engine.Core
 import Cdecao.Engine.Term
 import Cdecao.Engine.Final
+import Cdecao.Engine.Account
+import Cdecao.Engine.Terminate
 /-! # C19 — a failing worker makes the search fail, not hang
 
 The solver's verdict may be `Res.panic`. `acquire t` on such a verdict gives the busy count back
@@ -56,5 +58,73 @@ theorem C19_panicked_pos {root : ν} {top T : Nat} {c : Cfg ν σ} {st : Stats}
     (h : ReachS root top T (c, st)) :
     0 < st.panicked ↔ ∃ t : Nat, c.pcs[t]? = some Pc.dying ∨ c.pcs[t]? = some Pc.dead :=
   panicked_pos_iff h
+
+/-! ### termination with failing solvers (Engine/Terminate.lean)
+
+`AllFinished` allows `dead` workers, so the termination theorems cover failing solvers: `c` is any
+configuration reached from the start by a run `evs0` with at most `s` `wake` events, the tree is
+finite (`Budget W`), `T ≥ 1`; any subproblem may panic. -/
+
+/-- with failing subproblems anywhere in the tree: some continuation of `c` without `wake` events
+    ends with every worker stopped (`done` or `dead`) within `W root + 3 * T + 3 * (T * T + s)`
+    steps, and every continuation without `wake` events can be extended to such a one within the
+    same bound -/
+theorem C19_terminates (W : ν → Nat) (hW : Budget W) {root : ν} {top T s : Nat} {c : Cfg ν σ}
+    {evs0 : List Ev} (hT : 0 < T) (h0 : Run (init root top T) evs0 c) (hs : wakeEvents evs0 ≤ s) :
+    (∃ (evs : List Ev) (c' : Cfg ν σ), Run c evs c' ∧ (∀ ev ∈ evs, ev.isWake = false) ∧
+        AllFinished c' ∧ evs.length ≤ W root + 3 * T + 3 * (T * T + s)) ∧
+    (∀ (evs : List Ev) (c' : Cfg ν σ), Run c evs c' → (∀ ev ∈ evs, ev.isWake = false) →
+      ∃ (evs' : List Ev) (c'' : Cfg ν σ), Run c' evs' c'' ∧ (∀ ev ∈ evs', ev.isWake = false) ∧
+        AllFinished c'' ∧ evs.length + evs'.length ≤ W root + 3 * T + 3 * (T * T + s)) :=
+  terminates W hW hT h0 hs
+
+/-- **the search fails, it does not hang**: if some worker is `dead` in `c`, every continuation
+    without `wake` events extends within the bound to a configuration in which every worker has
+    stopped, and there the join loop of `solve` panics (`outcome = some true`) -/
+theorem C19_terminates_dead (W : ν → Nat) (hW : Budget W) {root : ν} {top T s : Nat}
+    {c : Cfg ν σ} {evs0 : List Ev} {t : Nat} (hT : 0 < T) (h0 : Run (init root top T) evs0 c)
+    (hs : wakeEvents evs0 ≤ s) (hdead : c.pcs[t]? = some Pc.dead) :
+    ∀ (evs : List Ev) (c' : Cfg ν σ), Run c evs c' → (∀ ev ∈ evs, ev.isWake = false) →
+      ∃ (evs' : List Ev) (c'' : Cfg ν σ), Run c' evs' c'' ∧ (∀ ev ∈ evs', ev.isWake = false) ∧
+        AllFinished c'' ∧ evs.length + evs'.length ≤ W root + 3 * T + 3 * (T * T + s) ∧
+        outcome c''.pcs = some true ∧ c''.pcs[t]? = some Pc.dead := by
+  intro evs c' h hwf
+  obtain ⟨evs', c'', h', hwf', hf, hle, hout⟩ :=
+    terminates_failure W hW hT h0 hs (Or.inr hdead) evs c' h hwf
+  have hst : Steps c c'' := steps_iff_run.2 ⟨_, h.append h'⟩
+  exact ⟨evs', c'', h', hwf', hf, hle, hout, steps_keep_stopped hst hdead (Or.inr rfl)⟩
+
+/-- the same as soon as the panic is registered (`dying`: the busy count has been given back, the
+    `notify_all` is still to come) -/
+theorem C19_terminates_dying (W : ν → Nat) (hW : Budget W) {root : ν} {top T s : Nat}
+    {c : Cfg ν σ} {evs0 : List Ev} {t : Nat} (hT : 0 < T) (h0 : Run (init root top T) evs0 c)
+    (hs : wakeEvents evs0 ≤ s) (hgone : c.pcs[t]? = some Pc.dying ∨ c.pcs[t]? = some Pc.dead) :
+    ∀ (evs : List Ev) (c' : Cfg ν σ), Run c evs c' → (∀ ev ∈ evs, ev.isWake = false) →
+      ∃ (evs' : List Ev) (c'' : Cfg ν σ), Run c' evs' c'' ∧ (∀ ev ∈ evs', ev.isWake = false) ∧
+        AllFinished c'' ∧ evs.length + evs'.length ≤ W root + 3 * T + 3 * (T * T + s) ∧
+        outcome c''.pcs = some true :=
+  terminates_failure W hW hT h0 hs hgone
+
+/-- whatever the schedule (wake-ups included): a finished configuration reached from a reachable
+    configuration with a `dying` or `dead` worker has a dead worker, and `solve` panics -/
+theorem C19_terminates_verdict {root : ν} {top T : Nat} {c c' : Cfg ν σ} {evs : List Ev} {t : Nat}
+    (hr : Reach root top T c) (hgone : c.pcs[t]? = some Pc.dying ∨ c.pcs[t]? = some Pc.dead)
+    (h : Run c evs c') (hf : AllFinished c') :
+    (∃ u : Nat, c'.pcs[u]? = some Pc.dead) ∧ outcome c'.pcs = some true :=
+  finished_after_failure hr hgone h hf
+
+/-- conversely, a search in which no subproblem below the root panics never loses a worker -/
+theorem C19_terminates_no_panic {root : ν} {top T : Nat} {c : Cfg ν σ}
+    (hnp : ∀ n, Desc n root → isPanic (Solver.res n) = false) (hr : Reach root top T c) :
+    ∀ (t : Nat) (pc : Pc ν), c.pcs[t]? = some pc → pc ≠ Pc.dying ∧ pc ≠ Pc.dead := by
+  intro t pc hpc
+  have := no_panic_no_gone hnp hr t pc hpc
+  constructor <;> (intro e; rw [e] at this; cases this)
+
+#print axioms C19_terminates
+#print axioms C19_terminates_dead
+#print axioms C19_terminates_dying
+#print axioms C19_terminates_verdict
+#print axioms C19_terminates_no_panic
 
 end Props
